@@ -48,7 +48,7 @@ TOL = 1e-9
 FD_EPS = 1e-5
 QUATS3 = A.QUATS[:3]
 
-SPRINGS = ["none", "all", "internal", "poly", "tendon"]
+SPRINGS = ["none", "all", "internal", "poly", "tendon", "tendonband"]
 KEY_RK4_QUAT = ("RK4 is only second-order accurate for ball/free joint orientations: stage angular velocities are summed "
                 "without the Lie-group (dexp^-1) correction, so energy/momentum drift shrinks like h^2")
 KEY_STAGE_ENERGY = ("after mj_step with RK4, mjData.energy is the energy of the last Runge-Kutta stage, not of the previous state "
@@ -71,13 +71,15 @@ def build(par, js, spring, gravity):
             return None
     elif spring == "poly":
         jattr = [K_POLY] * n
-    elif spring == "tendon":
+    elif spring in ("tendon", "tendonband"):
         scal = [nm for nm, t in U.joint_names(js) if t in ("hinge", "slide")]
         if len(scal) < 1:
             return None
         j2 = scal[1] if len(scal) > 1 else None
-        sections = '<tendon><fixed name="t0" stiffness="0.6 0 0.3" springlength="0.1"><joint joint="%s" coef="1.3"/>%s</fixed></tendon>\n' % (
-            scal[0], '<joint joint="%s" coef="-0.7"/>' % j2 if j2 else "")
+        # "tendonband": a genuine dead band lo < hi; the lattice puts the tendon below, inside and above it
+        sl = "0.1" if spring == "tendon" else "-0.05 0.15"
+        sections = '<tendon><fixed name="t0" stiffness="0.6 0 0.3" springlength="%s"><joint joint="%s" coef="1.3"/>%s</fixed></tendon>\n' % (
+            sl, scal[0], '<joint joint="%s" coef="-0.7"/>' % j2 if j2 else "")
     opt = A.option_elem(timestep=HS[0], integrator="RK4", gravity="0 0 -9.81" if gravity else "0 0 0", flags={"energy": "enable"})
     return U.std_tree_xml(par, js, jattr=jattr, sections=sections, option=opt)
 
@@ -164,6 +166,10 @@ def static_checks(lib, part, m, d, mi, ident, xml, gravity_on, spring):
             lib.mj_forward(m, d)
             rp = {"xml": xml, "qpos": q, "qvel": v}
             part.count(1)
+            if spring == "tendonband" and vi == 0:
+                L = float(d.ten_length[0])
+                lo, hi = [float(x) for x in np.array(m.tendon_lengthspring).reshape(-1, 2)[0]]
+                part.add("deadband_states_" + ("below" if L < lo else "above" if L > hi else "inside"))
             E = np.array(d.energy)
             M = U.fullM(lib, m, d)
             T = 0.5 * float(v @ M @ v)
@@ -431,7 +437,11 @@ def run_case(lib, part, par, js, spring, gravity_on):
     ident = "parents=%s joints=%s spring=%s gravity=%s" % (par, js, spring, "on" if gravity_on else "off")
     static_checks(lib, part, m, d, mi, ident, xml, gravity_on, spring)
     reported_energy_check(lib, part, m, d, mi, ident, xml)
-    dynamic_checks(lib, part, m, d, mi, ident, xml, gravity_on, spring, par, js)
+    if spring == "tendonband":
+        # the dead-band force has a kink at the band edges: the RK4 order test does not apply; statics only
+        part.add("dynamic_skipped_nonsmooth_deadband")
+    else:
+        dynamic_checks(lib, part, m, d, mi, ident, xml, gravity_on, spring, par, js)
     d.free()
     m.free()
 
